@@ -355,3 +355,74 @@ Theorem C15_pca_whitened_code_variance : forall sq cut d m V ev a (D : @data (li
   mean (lin d (fst E) (snd E) a) D == 0 /\ var (lin d (fst E) (snd E) a) D == 1.
 Proof. exact wh_code_variance. Qed.
 Print Assumptions C15_pca_whitened_code_variance.
+
+From Coq Require Import Qcanon.
+From SharkV Require Import C02Model C02Proofs C02BlkModel C02LUProofs C02Q C02QProofs C02PstrfModel C02PstrfProofs C02PstrfQProofs C02SemiModel C02SemiProofs.
+From SharkV Require Import C15SolveModel C15SolveProofs C15SolveQProofs C15SolveExample.
+(* ================= extension: LinearRegression::train and LDA::train AS CODED, solver step included
+   (C15SolveModel.v over the arithmetic record of C02, theorems over Qc; C15SolveProofs.v / C15SolveQProofs.v) ================= *)
+(* The solver is not an oracle: solve(M, B, symm_semi_pos_def(), side) is the C02 model (pstrf, potrf of L^T L, substitutions) and the
+   imported theorem C02_semi_solve_rowmajor is used.  The hypothesis that REMAINS is [semi_exact n epsm M]: on the matrix M the
+   constructor of symm_pos_semi_definite_solver runs exactly, i.e. (with (r, L, P, piv) = pstrf_full 20 n epsm M)
+     0 <= the stopping threshold,  sqrt exact on the pivots met (sq_ok piv),
+     ZERO SCHUR COMPLEMENT at the stop: M(P i, P j) = sum_{u<r} L i u * L j u for r <= i, j < n   (the rank found is the exact rank),
+     for 0 < r < n: potrf of L^T L succeeds and its square roots are exact.
+   Scalars: Qc (canonical rationals), std::sqrt = the parameter sq. *)
+Theorem C15_semi_solve_all_correct : forall sq n epsm (M : mat Qc) rhs xs, (forall i j, M i j = M j i) ->
+  semi_exact Qc (qc_ops sq) qc_abs n epsm M ->
+  semi_solve_all Qc (qc_ops sq) qc_abs n epsm M rhs = Some xs -> Forall2 (semi_sol Qc (qc_ops sq) n M) rhs xs.
+Proof. intros sq. exact (semi_solve_all_correct Qc (qc_ops sq) qc_abs (qc_field sq) (qc_eqb_spec sq) (qc_leb_00 sq)). Qed.
+Print Assumptions C15_semi_solve_all_correct.
+
+(* LinearRegression::train: the RETURNED weights (row c of the matrix | offset c) have vanishing gradient of the regularised squared
+   error, for every lambda >= 0 - for lambda = 0 and singular X^T X they are a least-squares solution (lrc_halfgrad = gradient / 2) *)
+Theorem C15_linreg_train_zero_gradient : forall sq d o lam epsm D betas, fleb (qc_ops sq) (fzero (qc_ops sq)) lam = true ->
+  semi_exact Qc (qc_ops sq) qc_abs (S d) epsm (lrc_A Qc (qc_ops sq) d lam D) ->
+  lrc_train Qc (qc_ops sq) qc_abs d o lam epsm D = Some betas ->
+  length betas = o /\
+  forall c j, (c < o)%nat -> (j <= d)%nat ->
+    lrc_halfgrad Qc (qc_ops sq) d lam D c (nth c betas (fun _ => fzero (qc_ops sq))) j = fzero (qc_ops sq).
+Proof. exact lrc_train_grad_zero_Q. Qed.
+Print Assumptions C15_linreg_train_zero_gradient.
+
+(* one point (1,1,1) -> 4 in three dimensions, lambda = 0: the 4 x 4 system is the all-ones matrix of rank 1 (singular), the
+   factorisation is exact (pivot 1, L^T L = 4) and train returns *)
+Example linreg_train_hyp_satisfiable :
+  fleb ps_F (fzero ps_F) (q_ 0) = true /\ semi_exact Qc ps_F qc_abs 4 ps_epsm (lrc_A Qc ps_F 3 (q_ 0) ex_lr_D) /\
+  exists betas, lrc_train Qc ps_F qc_abs 3 1 (q_ 0) ps_epsm ex_lr_D = Some betas.
+Proof. exact ex_lr_hypotheses. Qed.
+
+(* LDA::train (unweighted / weighted): class means and pooled covariance as coded (one pass), and for every class c the returned row
+   z_c: least-squares normal equations C (C z_c - m_c) = 0; bias part -0.5 <m_c, z_c>; for a REGULAR covariance C z_c = m_c
+   (= z_c C, C is symmetric) and the linear score is the exponent of the estimated Gaussian up to the class-independent term
+   (= C15_lda_rule_partial with its hypothesis discharged); see lda_rule_ok in C15SolveQProofs.v *)
+Theorem C15_lda_train_rule : forall sq half d K lam epsm D res,
+  semi_exact Qc (qc_ops sq) qc_abs d epsm (ldac_cov Qc (qc_ops sq) d K lam D) ->
+  ldac_train Qc (qc_ops sq) qc_abs half d K lam epsm D = Some res ->
+  (forall c, (c < K)%nat -> ldac_num Qc c D <> O) /\
+  lda_rule_ok sq half d K (map (fun c => ldac_mean Qc (qc_ops sq) d c D) (seq 0 K)) (ldac_cov Qc (qc_ops sq) d K lam D) res.
+Proof. exact ldac_train_rule_Q. Qed.
+Print Assumptions C15_lda_train_rule.
+
+Theorem C15_lda_train_weighted_rule : forall sq half d K lam epsm D res,
+  semi_exact Qc (qc_ops sq) qc_abs d epsm (ldaw_cov Qc (qc_ops sq) d K lam D) ->
+  ldaw_train Qc (qc_ops sq) qc_abs half d K lam epsm D = Some res ->
+  (forall c, (c < K)%nat -> ldaw_cw Qc (qc_ops sq) c D <> fzero (qc_ops sq)) /\
+  lda_rule_ok sq half d K (map (fun c => ldaw_mean Qc (qc_ops sq) d c D) (seq 0 K)) (ldaw_cov Qc (qc_ops sq) d K lam D) res.
+Proof. exact ldaw_train_rule_Q. Qed.
+Print Assumptions C15_lda_train_weighted_rule.
+
+(* the pooled covariance as coded is symmetric (hypothesis of the solver theorem, proved) *)
+Theorem C15_lda_cov_symmetric : forall sq d K lam,
+  (forall D j k, ldac_cov Qc (qc_ops sq) d K lam D j k = ldac_cov Qc (qc_ops sq) d K lam D k j) /\
+  (forall D j k, ldaw_cov Qc (qc_ops sq) d K lam D j k = ldaw_cov Qc (qc_ops sq) d K lam D k j).
+Proof. intros sq d K lam. split; intros D j k; [exact (ldac_cov_sym Qc (qc_ops sq) (qc_field sq) d K lam D j k)|exact (ldaw_cov_sym Qc (qc_ops sq) (qc_field sq) d K lam D j k)]. Qed.
+Print Assumptions C15_lda_cov_symmetric.
+
+(* classes {-1, 1} and {3, 5} in one dimension, weights 1: pooled covariance 1 (regular), sqrt exact on the weights, train returns *)
+Example lda_train_hyp_satisfiable :
+  semi_exact Qc ps_F qc_abs 1 ps_epsm (ldaw_cov Qc ps_F 1 2 (q_ 0) ex_lda_D) /\
+  sq_ok Qc ps_F (ldaw_met Qc ex_lda_D) /\
+  (exists res, ldaw_train Qc ps_F qc_abs (qc_make 1 2) 1 2 (q_ 0) ps_epsm ex_lda_D = Some res) /\
+  ex_lda_C 0%nat 0%nat = q_ 1 /\ fadd ps_F (qc_make 1 2) (qc_make 1 2) = fone ps_F.
+Proof. exact ex_lda_hypotheses. Qed.
